@@ -273,6 +273,11 @@ func (s *Session) applyChange(c Change) bool {
 	if c.Lower && c.NoDrain {
 		// no draining: whatever the windows hold back stays queued in the relay (WaitRecv: a
 		// hand-written session waits until exactly that many payload bytes have arrived)
+		if c.WaitDelivered {
+			if !e.awaitDelivered() || !e.peer().barrierRT("settings", "barrier") {
+				return false
+			}
+		}
 		if c.WaitRecv > 0 && !s.wait(func() bool {
 			var n int64
 			for _, t := range s.tr[1-e.idx] {
@@ -463,6 +468,35 @@ func (e *endpoint) runControl(ph *Phase, phi int) {
 			if !s.waitDep(func() bool { return e.known[st.S] || p.done }) {
 				return
 			}
+		}
+		if st.Act == "deficit" {
+			e.wmu.Lock()
+			s.mu.Lock()
+			var sid uint32
+			var worst int64
+			for id := range s.tr[1-e.idx] {
+				if e.known[id] && !e.closedFor(id) && e.fullCompare(id) {
+					if w := e.streamWin(id); w < worst {
+						sid, worst = id, w
+					}
+				}
+			}
+			s.mu.Unlock()
+			if sid != 0 {
+				inc := 1 + (-worst-1)*int64(st.Inc)/1000
+				e.writeWU(sid, uint32(inc))
+				s.mu.Lock()
+				if uint32(inc) > e.maxIncSent {
+					e.maxIncSent = uint32(inc)
+				}
+				s.NegWindowGrants++
+				s.mu.Unlock()
+			}
+			e.wmu.Unlock()
+			if s.Prop == "C09" && !e.awaitNoStrand("partial-credit") {
+				return
+			}
+			continue
 		}
 		if st.Act == "gated" {
 			e.gatedGrant(ph.Ops[1-e.idx])
